@@ -191,6 +191,29 @@ PARAM_SETS: list[dict[str, Any]] = [
 ]
 
 
+class FakeClock:
+    """stands in for time.time inside gallia.services.uds.server, so that the 10 s inactivity reset can be exercised without waiting"""
+
+    def __init__(self) -> None:
+        self.t = 1_700_000_000.0
+
+    def __call__(self) -> float:
+        self.t += 1e-6
+        return self.t
+
+    def advance(self, dt: float) -> None:
+        self.t += dt
+
+
+CLOCK = FakeClock()
+
+
+def install_clock() -> None:
+    import gallia.services.uds.server as srv
+
+    srv.time = CLOCK  # type: ignore[assignment]
+
+
 class Driver:
     """Real server + transport, with the model shadowing it."""
 
@@ -199,6 +222,7 @@ class Driver:
         from gallia.services.uds.server import UDSServerTransport
         from gallia.transports import TargetURI
 
+        install_clock()
         self.service = service
         self.server = make_server(seed, rp, switches)
         self.transport = UDSServerTransport(self.server, TargetURI("tcp-lines://127.0.0.1:1"))
